@@ -37,6 +37,58 @@ def repeats(run, graphs, seeds, concurrents):
     return traces
 
 
+def fresh_interpreters(run, graphs, seeds):
+    """every command in its OWN interpreter (python -m rv.localcmd on the real local backend), each with another PYTHONHASHSEED: what the CLI
+    does. Anything that depends on the process - set / dict iteration order of strings, ids, addresses - shows up as new chunk payload for
+    unchanged data. The tree contains what makes orders ambiguous: files of equal size with equal names in different directories."""
+    import base64
+    import json
+    import os
+    import subprocess
+    import sys
+    from . import c03_local
+    traces = []
+    for g in graphs:
+        for seed in seeds:
+            with harness.scratch() as d:
+                s = repodrv.Session(g, d, seed=seed, min_length=64, max_length=256)
+                r = s.rng
+                files = []
+                for i in range(14):
+                    files.append(s.write_file('dir%02d/desktop.ini' % i, r.randbytes(90)))                # equal size, equal base name
+                    if i % 3 == 0:
+                        files.append(s.write_file('dir%02d/notes.txt' % i, r.randbytes(r.choice([90, 200, 1500]))))
+                files.append(s.write_file('big.bin', r.randbytes(5000)))
+                root = str(d / 'localrepo')
+                os.makedirs(root)
+                c03_local.export(s.store.objs, root)
+                desc = []
+                for n, u in enumerate([s.users[0], s.users[0], s.users[-1], s.users[0]]):
+                    usr = s.world.users[u]
+                    args = {'dir': root, 'cmd': 'snapshot', 'concurrent': 3, 'paths': [str(d / 'src')],
+                            'password': base64.b64encode(usr.password).decode() if usr.password else None,
+                            'key': base64.b64encode(usr.key).decode() if usr.key else None}
+                    jf = str(d / ('args%d.json' % n))
+                    json.dump(args, open(jf, 'w'))
+                    client = 'interp%d' % n
+                    s.np = max(s.np, 1)
+                    s._marker('begin', {'want': s.capture(files), 'D': [], 'unknown': False, 'allempty': False, 'p': 1, 'k': 'snap', 'u': u}, client)
+                    env = dict(os.environ, PYTHONPATH='/verif', PYTHONDONTWRITEBYTECODE='1', PYTHONHASHSEED=str(1000 + 17 * n + seed))
+                    pr = subprocess.run([sys.executable, '-m', 'rv.localcmd', jf], env=env, capture_output=True, timeout=300)
+                    objs, _ = c03_local.observe(root)
+                    new = [nm for nm in objs if s.store.objs.get(nm) != objs[nm]]
+                    for nm in sorted(new, key=lambda x: (x.startswith('snapshots/'), x)):      # chunks, then the snapshot object
+                        with s.store.lock:
+                            s.store.objs[nm] = objs[nm]
+                            s.store.events.append(('put', nm, objs[nm], client))
+                    s._marker('end', {'p': 1, 'ok': pr.returncode == 0, 'fault': False, 'etype': '~' if pr.returncode == 0 else pr.stderr[-200:].decode(errors='replace'),
+                                      'hung': False}, client)
+                    desc.append('snapshot(%s, whole tree) in its own interpreter, hash seed %s -> rc %d, %d new objects' % (u, env['PYTHONHASHSEED'], pr.returncode, len(new)))
+                traces.append(s.trace(extra={'history': desc, 'opts': {'interpreters': 'one per command'}}))
+                run.case(('fresh-interpreters', g, seed))
+    return traces
+
+
 def main(run):
     quick = run.tier == 'quick'
     rc.design(run, ['mixed', 'shared'] if quick else ['plain', 'same', 'shared', 'indep', 'mixed'],
@@ -49,8 +101,9 @@ def main(run):
     traces += rc.histories(run, ['shared', 'indep'] if quick else rc.ALL_GRAPHS, range(run.seed * 100 + 90, run.seed * 100 + 90 + (1 if quick else 8)), 12 if quick else 25,
                            reads=False, flavour='s3')           # over the real S3 adapter, paged listings
     traces += repeats(run, rc.ALL_GRAPHS, range(run.seed * 10, run.seed * 10 + (1 if quick else 6)), [1, 3, 8] if quick else [1, 2, 3, 5, 8])
+    traces += fresh_interpreters(run, ['plain', 'shared'] if quick else ['plain', 'same', 'shared', 'mixed'], range(run.seed * 10, run.seed * 10 + (1 if quick else 4)))
     rc.validate(run, traces, CLAUSES, label='c07.histories')
-    run.coverage['rule'] = ('a case is one crash-free command history or one repeat-snapshot scenario (key graph x seed x concurrency) '
+    run.coverage['rule'] = ('a case is one crash-free command history or one repeat-snapshot scenario (key graph x seed x concurrency), also with every command in its own interpreter (different hash seeds), '
                             'or one replayed TLC behaviour; non-trivial = more than 10 backend events')
     run.assumptions += ['two identical chunks inside one snapshot may both be uploaded while in flight (object still stored once)',
                         'projection by rv/refcodec.py']
